@@ -32,7 +32,83 @@ impl Obs {
 pub fn run_vectors(cfg: &Cfg, vecs: &[Vector]) -> Vec<Obs> {
     let mut out: Vec<Obs> = Vec::with_capacity(vecs.len());
     run_rec(cfg, vecs, &mut out);
+    crowd_probe(cfg, vecs);
     out
+}
+
+// ---------------------------------------------------------------- crowded-table probe
+//
+// The sweeps give every vector its own address and run thousands of them in one table, so a result that
+// depends on HOW MANY aircraft are tracked shows up as a verdict that a single-vector replay cannot
+// reproduce. The first and then every 61st call of `run_vectors` in a process therefore takes one vector of the chunk and runs it twice on
+// its own: alone, and behind `n` bystanders (one DF11 each, other addresses). The two rows must be equal.
+// Differences are collected here and reported by the worker as `<ID>/crowded-table/<cfg>` with a replay
+// case that the harness handles itself (kind "crowd").
+
+pub struct CrowdFinding {
+    pub opts: Vec<String>,
+    pub addr: u32,
+    pub lines: Vec<Vec<u8>>,
+    pub n: usize,
+    pub what: String,
+}
+
+static PROBE_CALLS: std::sync::atomic::AtomicU64 = std::sync::atomic::AtomicU64::new(0);
+static CROWD: std::sync::Mutex<Vec<CrowdFinding>> = std::sync::Mutex::new(Vec::new());
+pub static CROWD_PROBES: std::sync::atomic::AtomicU64 = std::sync::atomic::AtomicU64::new(0);
+
+pub fn take_crowd_findings() -> Vec<CrowdFinding> {
+    std::mem::take(&mut *CROWD.lock().unwrap())
+}
+
+fn row_of(table: &crate::snap::Table, addr: u32) -> Option<Snap> {
+    table.read().ok()?.get(&addr).map(|p| Snap::of(addr, p))
+}
+
+/// the row of `addr` after `lines`, alone and behind `n` bystanders; None when the two agree
+pub fn crowd_difference(cfg: &Cfg, addr: u32, lines: &[Vec<u8>], n: usize) -> Option<String> {
+    let alone = new_table();
+    let o1 = run_file(cfg, &join_lines(lines), &alone);
+    let r1 = row_of(&alone, addr);
+    let mut all: Vec<Vec<u8>> = (0..n as u32).map(|i| 0x100001 + i).filter(|a| *a != addr).map(|a| crate::frames::df11(5, a, 0).hex().into_bytes()).collect();
+    all.extend(lines.iter().cloned());
+    let crowded = new_table();
+    let o2 = run_file(cfg, &join_lines(&all), &crowded);
+    let r2 = row_of(&crowded, addr);
+    if o1.is_ok() != o2.is_ok() {
+        return Some(format!("alone the reader ends {}, behind {n} other aircraft {}", o1.label(), o2.label()));
+    }
+    match (r1, r2) {
+        (Some(a), Some(b)) if a == b => None,
+        (None, None) => None,
+        (Some(a), Some(b)) => Some(format!("behind {n} other aircraft the row differs: {}", crate::snap::diff_fields(&a, &b).join("; "))),
+        (Some(_), None) => Some(format!("behind {n} other aircraft the aircraft gets no row")),
+        (None, Some(_)) => Some(format!("behind {n} other aircraft the aircraft gets a row, alone it gets none")),
+    }
+}
+
+fn crowd_probe(cfg: &Cfg, vecs: &[Vector]) {
+    use std::sync::atomic::Ordering::SeqCst;
+    if vecs.is_empty() {
+        return;
+    }
+    let c = PROBE_CALLS.fetch_add(1, SeqCst);
+    if c % 61 != 0 {
+        return;
+    }
+    let k = c / 61;
+    let v = &vecs[(k as usize * 7919) % vecs.len()];
+    let n = [4200usize, 1100, 70_000][(k % 3) as usize];
+    if n > 10_000 && k % 12 != 2 {
+        return;
+    }
+    CROWD_PROBES.fetch_add(1, SeqCst);
+    if let Some(what) = crowd_difference(cfg, v.addr, &v.lines, n) {
+        let mut g = CROWD.lock().unwrap();
+        if g.len() < 16 {
+            g.push(CrowdFinding { opts: cfg.opts.clone(), addr: v.addr, lines: v.lines.clone(), n, what });
+        }
+    }
 }
 
 fn run_rec(cfg: &Cfg, vecs: &[Vector], out: &mut Vec<Obs>) {
